@@ -187,7 +187,7 @@ def check(ctx, text, with_comments, origin):
 def run(ctx):
     def opts_fn(i, r):
         return jsgen.Opts(clean=(i % 2 == 0), unicode_idents=(i % 6 == 0), string_continuations=(i % 4 == 0))
-    progs = work.Programs(ctx, ctx.pick(350, 8000), opts_fn=opts_fn,
+    progs = work.Programs(ctx, ctx.per_shard(350, 8000), opts_fn=opts_fn,
                           layouts=('space', 'random_comments', 'lines', 'random_comments'))
     for text, meta in progs:
         if work.skip_known(ctx, text, None):
